@@ -32,8 +32,60 @@ PROTOS = [0, 1, 2, 3, 4, 5]
 
 def shards(tier, seed):
     n = {'quick': 250, 'thorough': 5000}[tier]
-    return [{'n': n, 'fams': F.rotate(F.FAMILIES, seed * 3 + i * 4, 6 if tier == 'quick' else 22),
-             'max_ops': 40 if tier == 'quick' else 200} for i in range(16)]
+    out = [{'n': n, 'fams': F.rotate(F.FAMILIES, seed * 3 + i * 4, 6 if tier == 'quick' else 22),
+            'max_ops': 40 if tier == 'quick' else 200} for i in range(16)]
+    # trees whose leaves are instances of a SUBCLASS of the family's leaf class (class attribute _bucket_type)
+    out[0]['leafsub'] = F.rotate(F.FAMILIES, seed, 4 if tier == 'quick' else 22)
+    return out
+
+
+def _leafsub(fams, ctx):
+    for fam in fams:
+        for kind in ('BTree', 'TreeSet'):
+            for impl in ('c', 'py'):
+                for sizes in ((2, 3), (3, 3), (4, 3)):
+                    for n in (0, 1, 3, 7, 12):
+                        case = {'leafsub': True, 'fam': fam, 'kind': kind, 'impl': impl, 'sizes': list(sizes), 'n': n}
+                        if not ctx.run_case(case, _leafsub_case):
+                            return
+
+
+def _leafsub_case(case, ctx):
+    fam, kind, impl, sizes, n = case['fam'], case['kind'], case['impl'], tuple(case['sizes']), case['n']
+    klass = F.leaf_subclass(F.cls(fam, kind, impl), F.cls(fam, F.leaf_kind(kind), impl), sizes)
+    dom = [F.dk(fam, x) for x in F.domain(fam, 'int') if x is not None]
+    t = klass()
+    for i, k in enumerate(dom[:n]):
+        if kind == 'BTree':
+            t[k] = F.dv(fam, {'O': 'v', 'F': 0.5, 's': 1}.get(fam[1], 1))
+        else:
+            t.add(k)
+    if walker.f16_pending(walker.walk(t, kind == 'BTree', check=False)):
+        return False, ('leafsub:skipped_f16_shape',)
+    want = list(t.items()) if kind == 'BTree' else list(t)
+    what = '%s with %d keys (leaves are instances of %s)' % (klass.__name__, n, klass._bucket_type.__name__)
+    sig = {'impl': impl, 'kind': kind, 'what': 'leafsub'}
+    copies = [('copy.copy', lambda: copy.copy(t)), ('copy.deepcopy', lambda: copy.deepcopy(t)),
+              ('__setstate__', lambda: _via_setstate(klass, t))]
+    copies += [('pickle protocol %d' % p, (lambda p=p: pickle.loads(pickle.dumps(t, p)))) for p in range(6)]
+    for how, f in copies:
+        try:
+            c = f()
+            got = list(c.items()) if kind == 'BTree' else list(c)
+            c._check()
+            walker.walk(c, kind == 'BTree')
+        except Exception as e:
+            ctx.mismatch('%s: %s failed: %s: %s' % (what, how, type(e).__name__, e), dict(sig, how=how.split()[0]))
+            continue
+        if got != want or type(c) is not klass:
+            ctx.mismatch('%s: %s gives %r (%s)' % (what, how, got, type(c).__name__), dict(sig, how=how.split()[0]))
+    return n >= 7, ('leafsub_roundtrips',)
+
+
+def _via_setstate(klass, t):
+    c = klass()
+    c.__setstate__(t.__getstate__())
+    return c
 
 
 def run_shard(shard, ctx):
@@ -58,12 +110,15 @@ def run_shard(shard, ctx):
         return c
 
     try:
-        ctx.hyp(case(), run_case, shard['n'], 'rt')
+        if ctx.hyp(case(), run_case, shard['n'], 'rt') and shard.get('leafsub'):
+            _leafsub(shard['leafsub'], ctx)
     finally:
         _peer_close()
 
 
 def replay(case, ctx):
+    if case.get('leafsub'):
+        return _leafsub_case(case, ctx)
     try:
         run_case(case, ctx)
     finally:
